@@ -1109,3 +1109,170 @@ func (v *vf) chargeUnderResultTest(fn *ssa.Function, pos ssa.Value, counter *typ
 	}
 	return found && allUnder
 }
+
+// ro1Rotation: whenever a shared database's active file is replaced, the outgoing file is first registered in
+// the rotated-files map (otherwise positions that name it can no longer be resolved).
+func ro1Rotation(p *core.Prog, rep *core.Report) {
+	R := p.R
+	rep.Rule("RO1", "rotation keeps the outgoing file readable: in every function (other than Open) that replaces a shared database's active file - directly or by calling the function that stores the field - a map update olderFiles[..] = <current active file> dominates the replacement")
+	direct := map[*ssa.Function]bool{}
+	for _, fn := range p.LibFuncs() {
+		for _, b := range fn.Blocks {
+			for _, in := range b.Instrs {
+				if f, base, _ := core.StoreField(in); f == R.DBActive && !freshInFn(base, fn) {
+					direct[fn] = true
+				}
+			}
+		}
+	}
+	n := 0
+	for _, fn := range p.LibFuncs() {
+		if !inRootPkg(fn) || fn.Name() == "Open" || fn.Parent() != nil {
+			continue
+		}
+		for _, b := range fn.Blocks {
+			for _, in := range b.Instrs {
+				ci, ok := in.(ssa.CallInstruction)
+				if !ok {
+					continue
+				}
+				callee := ci.Common().StaticCallee()
+				if callee == nil || !direct[callee] || len(ci.Common().Args) == 0 || freshInFn(ci.Common().Args[0], fn) {
+					continue
+				}
+				// Open-only loaders construct the file set of a fresh database
+				openOnly := true
+				for _, s := range libCallSites(p, fn) {
+					if s.Parent().Name() != "Open" {
+						openOnly = false
+					}
+				}
+				if openOnly && len(libCallSites(p, fn)) > 0 {
+					continue
+				}
+				n++
+				registered := false
+				for _, b2 := range fn.Blocks {
+					for _, in2 := range b2.Instrs {
+						mu, ok := in2.(*ssa.MapUpdate)
+						if !ok {
+							continue
+						}
+						if f, _ := core.LoadedField(mu.Map); f != R.DBOlder {
+							continue
+						}
+						if f, _ := core.LoadedField(mu.Value); f == R.DBActive && dominatesInstr(in2, in) {
+							registered = true
+						}
+					}
+				}
+				rep.Check(registered, "RO1", "rotation-registers-outgoing:"+core.FuncKey(fn), "the outgoing active file is put into the rotated-files map before it is replaced", p.InstrPos(in), "the active file is replaced without registering the outgoing one: every position that names it becomes unresolvable (ErrDataFileNotFound) until restart", true)
+			}
+		}
+	}
+	if n == 0 {
+		core.Failf("vacuity guard: RO1 found no rotation site")
+	}
+}
+
+// rp1SkipBelow: the replay loop skips a data file only when its id is STRICTLY below the first id that was not
+// loaded from the hint.
+func rp1SkipBelow(p *core.Prog, rep *core.Report) {
+	rep.Rule("RP1", "hint/scan boundary: in the replay function the comparison between the scanned file id and the first-unhinted id sends equality to the 'scan it' edge (evaluated at below / equal / above, like MG1): the first file written after the merge is never skipped")
+	var replay *ssa.Function
+	for _, fn := range p.LibFuncs() {
+		if !inRootPkg(fn) || fn.Parent() != nil {
+			continue
+		}
+		callsNext := false
+		for _, b := range fn.Blocks {
+			for _, in := range b.Instrs {
+				if ci, ok := in.(ssa.CallInstruction); ok {
+					if c := ci.Common().StaticCallee(); c != nil && c.Name() == "NextLogRecord" {
+						callsNext = true
+					}
+				}
+			}
+		}
+		if callsNext && fn.Signature.Params().Len() == 2 && core.RecvNamed(fn) == p.R.DB {
+			replay = fn
+		}
+	}
+	if replay == nil {
+		core.Failf("role unresolved: replay function with (file ids, first-unhinted id) parameters")
+	}
+	found := false
+	why := ""
+	for _, b := range replay.Blocks {
+		iff, ok := b.Instrs[len(b.Instrs)-1].(*ssa.If)
+		if !ok {
+			continue
+		}
+		bo, ok := iff.Cond.(*ssa.BinOp)
+		if !ok {
+			continue
+		}
+		_, xp := bo.X.(*ssa.Parameter)
+		_, yp := bo.Y.(*ssa.Parameter)
+		if xp == yp {
+			continue
+		}
+		// the other side must be an element of the file-id slice (range element)
+		other := bo.X
+		if xp {
+			other = bo.Y
+		}
+		if x, _ := elemLoad(other); x == nil {
+			continue
+		}
+		if _, ok := other.Type().Underlying().(*types.Basic); !ok {
+			continue
+		}
+		found = true
+		eval := func(id, lim int) bool {
+			x, y := id, lim
+			if xp {
+				x, y = lim, id
+			}
+			switch bo.Op {
+			case token.LSS:
+				return x < y
+			case token.LEQ:
+				return x <= y
+			case token.GTR:
+				return x > y
+			case token.GEQ:
+				return x >= y
+			case token.EQL:
+				return x == y
+			case token.NEQ:
+				return x != y
+			}
+			return false
+		}
+		below, equal, above := eval(1, 2), eval(2, 2), eval(3, 2)
+		// which edge skips? the one whose successor jumps straight back to the loop (no NewReader call dominated)
+		skipsOn := func(taken bool) bool {
+			succ := b.Succs[0]
+			if !taken {
+				succ = b.Succs[1]
+			}
+			// the skipping edge goes straight back to the loop header (a block that dominates the test itself),
+			// possibly through an empty forwarding block
+			if succ.Dominates(b) {
+				return true
+			}
+			if len(succ.Instrs) == 1 && len(succ.Succs) == 1 && succ.Succs[0].Dominates(b) {
+				return true
+			}
+			return false
+		}
+		if !(skipsOn(below) && !skipsOn(equal) && !skipsOn(above)) {
+			why = fmt.Sprintf("the test at %s skips: below=%v equal=%v above=%v (must be true,false,false): a file whose id equals the first-unhinted id is never scanned and its records are lost after a merge adoption", p.InstrPos(iff), skipsOn(below), skipsOn(equal), skipsOn(above))
+		}
+	}
+	if !found {
+		why = "no comparison between the scanned file id and the first-unhinted id"
+	}
+	rep.Check(why == "", "RP1", "skip-strictly-below:"+core.FuncKey(replay), "files are skipped only strictly below the first-unhinted id", p.Pos(replay.Pos()), why, true)
+}
